@@ -21,6 +21,7 @@
 -/
 import ControlModel.Gen.PlacementFacts
 import ControlModel.Proofs.Placement
+import ControlModel.Proofs.PlacementStore
 
 open Placement
 
@@ -176,10 +177,10 @@ theorem C05_port_draw_needs_check (k : Cfg) (hk : k.drawChecked = false) : ¬ C0
   have := h { cpu := some 4, mem := some 4, ports := some [(9000, 9003)] }
     { cpu := 1, mem := 0, static := [], inbound := [true] } (by decide) (by decide)
   revert this
-  obtain ⟨a, b, c⟩ := k
+  obtain ⟨a, b, c, d⟩ := k
   simp only at hk
   subst hk
-  cases b <;> cases c <;> decide
+  cases b <;> cases c <;> cases d <;> decide
 
 /-- Without the static claim (as the code was): no panic for a task without inbound
     TCP channels on resources that still hold a port above 29999. -/
@@ -637,3 +638,200 @@ example :
     let ds : List Desc := [⟨0, [], some (C05_witnessClass 3 "9000" [true])⟩, ⟨1, [], some (C05_witnessClass 3 "9000" [true])⟩]
     validInputs m ds [C05_witnessOffer] = true ∧
     (roundVerdict [C05_witnessOffer] (round m [C05_witnessOffer] ds [C05_witnessOffer])).all = true := by decide
+
+/-! ## the class store across workflow loads
+
+"The constraints that apply to it (those of the task template …)" and "what the
+task template asks for" mean the template AS LAST LOADED. `Manager.RefreshClasses`
+hands every class a workflow needs to `Classes.UpdateClass`; `history` is a
+sequence `load; place; reload (classes edited under the same key); place; …` on
+one store. `latest steps n k` (Spec/C05) is the last definition of class `k`
+among the loads of rounds `0..n` — defined without any reference to the store. -/
+
+/-- The template on which `Class.Equals` is tabulated, and its one-place edits. -/
+def C05_equalsBase : Class :=
+  { cts := [⟨"role", "flp", 0⟩], cpu := 4, mem := 512, portsExpr := "8000-8002".toList, inbound := [true, false], cmd := "sleep 1" }
+
+/-- What the MODEL's `Class.equalsCW` notices of a one-place edit. -/
+def C05_equalsNoticesModel (rngFixed : Bool) : List (String × Bool) :=
+  let b := C05_equalsBase
+  [("command", !b.equalsCW rngFixed { b with cmd := "sleep 2" }),
+   ("cpu", !b.equalsCW rngFixed { b with cpu := 8 }),
+   ("memory", !b.equalsCW rngFixed { b with mem := 1024 }),
+   ("ports", !b.equalsCW rngFixed { b with portsExpr := "8100-8102".toList }),
+   ("constraints", !b.equalsCW rngFixed { b with cts := [⟨"role", "epn", 0⟩] }),
+   ("bind", !b.equalsCW rngFixed { b with inbound := [true, false, true] }),
+   ("nothing", !b.equalsCW rngFixed b)]
+
+/-- The store of the model is the code's (facts re-read on every run): `UpdateClass`
+    has one branch, `if held { *entry = *class } else { map[key] = class }`, no return
+    and no assignment to its parameters — a held key is overwritten unconditionally
+    (`codeCfg.storeOverwrites`); the loop of `RefreshClasses` hands every loaded class
+    to it; and the linked `Class.Equals`, evaluated on a template and its one-place
+    edits, notices exactly what `Class.equalsCW` notices: command, cpu, memory, ports —
+    NOT constraints, NOT bind. (So a store that kept a held entry on `Equals` would
+    be the store of `keepIfEqualCfg`, refuted below.) -/
+theorem C05_class_store_is_code :
+    Gen.Placement.updateOverwrites = codeCfg.storeOverwrites ∧
+    Gen.Placement.refreshUpdatesEvery = true ∧
+    ∀ rngFixed, Gen.Placement.equalsNotices = C05_equalsNoticesModel rngFixed := by
+  refine ⟨by decide, by decide, ?_⟩
+  intro f
+  cases f <;> decide
+
+/-- One workflow load on a store that overwrites: afterwards every class reads as
+    its LAST definition in the load, and a class the load does not mention reads as before. -/
+theorem C05_store_get_is_last_loaded (m : Mode) (hk : m.cfg.storeOverwrites = true)
+    (s : Store) (defs : List (Key × Class)) (k : Key) :
+    storeGet (storeLoad m s defs) k =
+      (match lastLoaded defs k with | some c => some c | none => storeGet s k) := by
+  -- `all` = everything in sight; irrelevant for a store that overwrites
+  have hs : HeldFrom s (s ++ defs) := by
+    intro k h hh
+    have : ∀ (s : Store), storeGet s k = some h → (k, h) ∈ s := by
+      intro s
+      induction s with
+      | nil => intro hh; simp [storeGet] at hh
+      | cons x xs ih =>
+        obtain ⟨e, c⟩ := x
+        intro hh
+        by_cases hek : e = k
+        · simp only [storeGet, hek, if_true, Option.some.injEq] at hh
+          subst hh; subst hek; exact List.mem_cons_self
+        · simp only [storeGet, hek, if_false] at hh
+          exact List.mem_cons_of_mem _ (ih hh)
+    exact List.mem_append_left _ (this s hh)
+  exact (storeLoad_spec m (s ++ defs) defs s (Or.inl hk) (fun d hd => List.mem_append_right _ hd) hs).1 k
+
+/-- FULL-STRENGTH: in every history, round `n` answers exactly what the OFFERS
+    handler answers for the round's descriptors with, for each class, its LAST
+    definition among the loads of rounds `0..n` — whatever was loaded before under
+    that key and whatever the edit touched. -/
+def C05_history_follows_latest_full (k : Cfg) : Prop :=
+  ∀ (m : Mode), m.cfg = k → ∀ (steps : List Step) (n : Nat),
+    (history m [] steps)[n]? =
+      steps[n]?.map fun st => round m st.offers (st.descs.map (resolveBy (latest steps n))) st.order
+
+/-- Any store that overwrites follows the latest template: all histories, all rounds. -/
+theorem C05_history_follows_latest (m : Mode) (hk : m.cfg.storeOverwrites = true) (steps : List Step) (n : Nat) :
+    (history m [] steps)[n]? =
+      steps[n]?.map fun st => round m st.offers (st.descs.map (resolveBy (latest steps n))) st.order :=
+  history_getElem? m steps (Or.inl hk) n
+
+/-- The code as it is follows the latest template. -/
+theorem C05_history_follows_latest_code : C05_history_follows_latest_full codeCfg :=
+  fun m hm steps n => C05_history_follows_latest m (by rw [hm]; rfl) steps n
+
+/-- Placement in round `n` depends on the loads ONLY through the last definition of
+    each class before `n`: two histories whose round `n` has the same offers,
+    descriptors and lock order, and in which every class has the same latest
+    definition at `n`, answer the same in round `n` — however they got there. -/
+theorem C05_history_depends_only_on_latest (m : Mode) (hk : m.cfg.storeOverwrites = true)
+    (steps₁ steps₂ : List Step) (n : Nat) (st₁ st₂ : Step)
+    (h1 : steps₁[n]? = some st₁) (h2 : steps₂[n]? = some st₂)
+    (ho : st₁.offers = st₂.offers) (hd : st₁.descs = st₂.descs) (hord : st₁.order = st₂.order)
+    (hl : ∀ k, latest steps₁ n k = latest steps₂ n k) :
+    (history m [] steps₁)[n]? = (history m [] steps₂)[n]? := by
+  rw [C05_history_follows_latest m hk steps₁ n, C05_history_follows_latest m hk steps₂ n, h1, h2]
+  have : latest steps₁ n = latest steps₂ n := funext hl
+  simp [ho, hd, hord, this]
+
+/-- Reloading classes exactly as they are held changes nothing — for ANY store
+    configuration: the store is the same afterwards, so every later round of
+    every continuation answers the same. -/
+theorem C05_reload_identical_changes_nothing (m : Mode) (s : Store) (defs : List (Key × Class))
+    (h : ∀ d ∈ defs, storeGet s d.1 = some d.2) (offers : List Offer) (descs : List DescRef) (order : List Offer)
+    (rest : List Step) :
+    storeLoad m s defs = s ∧
+    history m s (⟨defs, offers, descs, order⟩ :: rest) = history m s (⟨[], offers, descs, order⟩ :: rest) := by
+  have hs := storeLoad_held m defs s h
+  refine ⟨hs, ?_⟩
+  simp only [history, hs]
+  rfl
+
+/-- Two agents and a class whose reloaded copy differs in its constraints only. -/
+def C05_flpOffer : Offer := { C05_witnessOffer with oid := 0, attrs := [("machine_id", "m0"), ("role", "flp")] }
+def C05_epnOffer : Offer := { C05_witnessOffer with oid := 1, attrs := [("machine_id", "m1"), ("role", "epn")] }
+
+def C05_reloadWitness (second : Class) : List Step :=
+  let first : Class := { cts := [⟨"role", "flp", 0⟩], cpu := 1, mem := 0, portsExpr := [], inbound := [true], cmd := "run" }
+  let os := [C05_flpOffer, C05_epnOffer]
+  [⟨[(0, first)], os, [⟨0, [], some 0⟩], os⟩, ⟨[(0, second)], os, [⟨0, [], some 0⟩], os⟩]
+
+/-- A store that keeps the held entry when `Class.Equals` finds command and wants
+    unchanged does NOT follow the latest template: the class is loaded with
+    `role = flp`, edited to `role = epn` (nothing else), loaded again — and the
+    second deployment still goes to the flp agent. -/
+theorem C05_keep_if_equal_goes_stale : ¬ C05_history_follows_latest_full keepIfEqualCfg := by
+  intro h
+  have := h { satFixed := true, rngFixed := true, cfg := keepIfEqualCfg } rfl
+    (C05_reloadWitness { cts := [⟨"role", "epn", 0⟩], cpu := 1, mem := 0, portsExpr := [], inbound := [true], cmd := "run" }) 1
+  have := congrArg (Option.map fun out => out.accepts.map fun a => (a.oid, a.launches.map (·.desc.id))) this
+  revert this
+  decide
+
+/-- On the code as it is: after that reload the task goes to the epn agent; and
+    after a reload that only adds an inbound TCP channel the task gets two dynamic ports. -/
+theorem C05_reloaded_template_followed_code :
+    let m : Mode := { satFixed := true, rngFixed := true, cfg := codeCfg }
+    ((history m [] (C05_reloadWitness
+        { cts := [⟨"role", "epn", 0⟩], cpu := 1, mem := 0, portsExpr := [], inbound := [true], cmd := "run" })).map
+      fun out => out.accepts.map fun a => (a.oid, a.launches.map (·.desc.id))) = [[(0, [0]), (1, [])], [(0, []), (1, [0])]] ∧
+    ((history m [] (C05_reloadWitness
+        { cts := [⟨"role", "flp", 0⟩], cpu := 1, mem := 0, portsExpr := [], inbound := [true, true], cmd := "run" })).map
+      fun out => out.accepts.map fun a => a.launches.map (·.task.dyn)) = [[[[9000]], []], [[[9000, 9001]], []]] := by decide
+
+/-- Whatever the store does with classes `Class.Equals` finds equal: on every
+    history in which `Class.Equals` tells apart any two different definitions of
+    one class (no reload edits ONLY constraints, bind, … ), the latest template is followed. -/
+theorem C05_history_follows_latest_partial (m : Mode) (steps : List Step)
+    (hyp : ∀ a ∈ steps.flatMap (·.loads), ∀ b ∈ steps.flatMap (·.loads),
+      a.1 = b.1 → a.2.equalsCW m.rngFixed b.2 = true → a.2 = b.2) (n : Nat) :
+    (history m [] steps)[n]? =
+      steps[n]?.map fun st => round m st.offers (st.descs.map (resolveBy (latest steps n))) st.order :=
+  history_getElem? m steps (Or.inr hyp) n
+
+/-- The predicate the correspondence run evaluates on a history (`histVerdict`:
+    every clause of `roundVerdict` in every round, each task judged against the
+    template as last loaded) is a theorem for the model of the code as it is. -/
+theorem C05_history_spec (m : Mode) (hs : m.satFixed = true) (hr : m.rngFixed = true) (hc : m.cfg = codeCfg)
+    (steps : List Step)
+    (hsteps : ∀ x ∈ steps.zip (resolvedDescs [] steps),
+      validInputs m x.2 x.1.order = true ∧ (x.1.offers.map (·.oid)).Nodup ∧ (∀ o ∈ x.1.order, o ∈ x.1.offers) ∧
+      ∀ a ∈ (round m x.1.offers x.2 x.1.order).accepts, ∀ l ∈ a.launches, ∀ c, l.desc.cls = some c →
+        (parseRanges true c.portsExpr).isSome = true) :
+    histVerdict steps (history m [] steps) = true := by
+  have hk : m.cfg.storeOverwrites = true := by rw [hc]; rfl
+  have h := history_eq_resolved m (steps.flatMap (·.loads)) (Or.inl hk) steps [] []
+    (fun st hst d hd => List.mem_flatMap.2 ⟨st, hst, hd⟩) (fun k h hh => by simp [storeGet] at hh) (fun k => rfl)
+  unfold histVerdict
+  rw [Bool.and_eq_true]
+  refine ⟨by simp [history_length], ?_⟩
+  rw [h]
+  -- pair every step with its resolved descriptors
+  have key : ∀ (A : List Step) (B : List (List Desc)),
+      (∀ x ∈ A.zip B, (roundVerdict x.1.offers (round m x.1.offers x.2 x.1.order)).all = true) →
+      (A.zip (List.zipWith (fun st ds => round m st.offers ds st.order) A B)).all
+        (fun x => (roundVerdict x.1.offers x.2).all) = true := by
+    intro A
+    induction A with
+    | nil => intro B _; simp
+    | cons a as ih =>
+      intro B hB
+      cases B with
+      | nil => simp
+      | cons b bs =>
+        simp only [List.zipWith_cons_cons, List.zip_cons_cons, List.all_cons, Bool.and_eq_true]
+        refine ⟨hB (a, b) (by simp), ih bs (fun x hx => hB x (by simp [hx]))⟩
+  apply key
+  intro x hx
+  obtain ⟨v1, v2, v3, v4⟩ := hsteps x hx
+  exact C05_round_spec m hs hr hc x.1.offers x.2 x.1.order v1 v2 v3 v4
+
+/-- Non-vacuity: the reload witness satisfies the hypotheses of `C05_history_spec`
+    (evaluated), and its verdict is true. -/
+example :
+    let m : Mode := { satFixed := true, rngFixed := true, cfg := codeCfg }
+    let steps := C05_reloadWitness { cts := [⟨"role", "epn", 0⟩], cpu := 1, mem := 0, portsExpr := [], inbound := [true, true], cmd := "run" }
+    ((steps.zip (resolvedDescs [] steps)).all fun x => validInputs m x.2 x.1.order) = true ∧
+    histVerdict steps (history m [] steps) = true := by decide
